@@ -80,6 +80,19 @@ PLAN = {
                        weights={"AddGlobal": 2.5, "RawWrite": 3.0, "AddDests": 0.3, "RemoveDest": 0.1})]),
 }
 
+def capacity_histories(tier):
+    """More messages than the start-up buffer holds (the REAL capacity, 1000), then the first add_destinations."""
+    progs = []
+    for n in ((1000, 1001) if tier == "quick" else (999, 1000, 1001, 2500)):
+        ops = [{"op": "Log", "c": 1, "ty": "m"} for _ in range(n)]
+        ops += [{"op": "AddGlobal", "c": 1, "f": "g1", "v": 1}, {"op": "AddDests", "c": 1, "S": [1, 2]}, {"op": "Log", "c": 1, "ty": "m"},
+                {"op": "AddDests", "c": 1, "S": [3]}, {"op": "Log", "c": 1, "ty": "m"}, {"op": "RemoveDest", "c": 1, "d": 2}, {"op": "Log", "c": 1, "ty": "m"}]
+        progs.append({"init": [], "ndest": 3, "ops": ops, "wit": n, "collide": False})
+    return progs
+
+
+PLAN["C12"]["special"] = capacity_histories
+
 SIZES = {"quick": dict(sim=160, rand=500), "thorough": dict(sim=4000, rand=12000)}
 
 
@@ -147,6 +160,11 @@ def run(prop, tier):
             if verdicts:
                 rep.sample({"source": "random program", "ops": verdicts[0]["program"]["ops"][:25],
                             "first_events": verdicts[0]["trace"]["ev"][:6]})
+        if plan.get("special"):
+            verdicts, st = validate(plan["special"](tier))
+            rep.cov["states"] += st
+            rep.cov["transitions"] += st
+            judge(rep, verdicts, "hand-built history")
         if plan.get("extra"):
             import checks_conc_extra
             getattr(checks_conc_extra, plan["extra"])(rep, tier)
